@@ -40,12 +40,14 @@ pub fn check_rect(c: &RectCase) -> CheckResult {
         match *op {
             POp::M(x, y) => pb.move_to(x, y),
             POp::L(x, y) => pb.line_to(x, y),
-            _ => {}
+            POp::Q(a, b, x, y) => pb.quad_to(a, b, x, y),
+            POp::C(a, b, cc, d, x, y) => pb.cubic_to(a, b, cc, d, x, y),
+            POp::Z => pb.close(),
         }
     }
     pb.rect(c.x, c.y, c.w, c.h);
     let p = pb.finish();
-    let k = c.lead.iter().filter(|o| matches!(o, POp::M(..) | POp::L(..))).count();
+    let k = c.lead.len();
     let ops = &p.ops[..];
     if ops.len() != k + 5 {
         return Err(format!("rect appended {} ops, expected 5 (MoveTo, 3 LineTo, Close)", ops.len() as i64 - k as i64));
@@ -68,11 +70,13 @@ pub fn check_rect(c: &RectCase) -> CheckResult {
     o.nontrivial = w != h && (w < 0.0 || h < 0.0 || x != 0.0 || y != 0.0);
     o.class_if(w < 0.0 || h < 0.0, "negative-size");
     o.class_if(w == 0.0 || h == 0.0, "zero-size");
+    o.class_if(matches!(c.lead.last(), Some(POp::Z)), "rect-directly-after-close");
+    o.class_if(matches!(c.lead.last(), Some(POp::L(..) | POp::Q(..) | POp::C(..))), "rect-in-the-middle-of-a-subpath");
     Ok(o)
 }
 
 fn rect_strategy() -> BoxedStrategy<RectCase> {
-    (finite_f32(), finite_f32(), finite_f32(), finite_f32(), prop::collection::vec((finite_f32(), finite_f32(), any::<bool>()).prop_map(|(x, y, m)| if m { POp::M(x, y) } else { POp::L(x, y) }), 0..3))
+    (finite_f32(), finite_f32(), finite_f32(), finite_f32(), prop::collection::vec((finite_f32(), finite_f32(), finite_f32(), finite_f32(), 0u8..6).prop_map(|(x, y, a, b, m)| match m { 0 => POp::M(x, y), 1 | 2 => POp::L(x, y), 3 => POp::Q(a, b, x, y), 4 => POp::C(a, b, b, a, x, y), _ => POp::Z }), 0..4))
         .prop_map(|(x, y, w, h, lead)| RectCase { x, y, w, h, lead })
         .boxed()
 }
